@@ -2,7 +2,7 @@
    Statements only; proofs are in theories/Forest/NavProofs.v. *)
 From Coq Require Import String.
 From Coq Require Import List ZArith Bool.
-From NT Require Import Sx Rose Nav NavProofs NavSource NavSourceTyped.
+From NT Require Import Sx Rose Nav NavProofs NavLaws NavSource NavSourceTyped.
 From NTGen Require Import Generated.
 Import ListNotations.
 
@@ -72,6 +72,26 @@ Theorem C15_iter_by_type : forall (f : forest) (k : text),
   t_iter_by_type f (Some k) = filter (kind_is k) (pre_f f) /\ t_iter_by_type f None = pre_f f.
 Proof. intros f k. split; [exact (typed_iter_by_type f k)|exact (typed_iter_any f)]. Qed.
 Print Assumptions C15_iter_by_type.
+
+(* the same in positional form, without reference to the plain queries: split the sibling list FILTERED by the
+   node's kind at the node; index = number of same-kind siblings before it, previous / next = the nearest
+   same-kind sibling before / after it, first / last = the ends of the filtered list *)
+Theorem C15_typed_positions : forall (f : forest) (n : nat) (c : ctx) (k : text),
+  NoDup (ids f) -> locate_f n f = Some c -> rkind (c_self c) = Some k ->
+  exists l1 l2,
+    filter (fun t => same_kind t (c_self c)) (c_sibs c) = l1 ++ c_self c :: l2 /\
+    (forall x, In x (l1 ++ l2) -> rkind x = Some k /\ In x (c_sibs c) /\ rid x <> rid (c_self c)) /\
+    t_index c false = Some (length l1) /\
+    t_prev c false = last_error l1 /\
+    t_next c false = hd_error l2 /\
+    t_first_sibling c false = hd_error (l1 ++ [c_self c]) /\
+    t_last_sibling c false = last_error (c_self c :: l2) /\
+    (t_is_first c false = true <-> l1 = []) /\
+    (t_is_last c false = true <-> l2 = []) /\
+    t_siblings c false false = l1 ++ l2 /\
+    t_siblings c false true = l1 ++ c_self c :: l2.
+Proof. exact typed_positions. Qed.
+Print Assumptions C15_typed_positions.
 
 (* ================================================================== *)
 (* Source tie: lexical facts lifted from nutree/typed_tree.py            *)
